@@ -140,7 +140,8 @@ TEXT.update({
         level_text=('Proof of the reset clause only: whenever nothing is considered pressed nothing is held on the virtual keyboard (lemma_rest through the invariant), after all physical keys are released nothing is '
                     'considered pressed (C01), and release_all ensures nothing pressed, nothing held, only releases emitted. The clause "answers every later event sequence exactly like a new mapper" relates two runs; '
                     'stale values of the absorbed list / absorbing trigger / repeating trigger survive at rest, and showing that they never influence a later answer needs a relational (two-run) proof that the installed '
-                    'tools cannot express. It is named as unproved in the evidence.'),
+                    'tools cannot express. It is named as unproved in the evidence; a bounded stand-in runs with the check (extra fresh_bounded, never counted as proof): a fixed, seeded set of cases (400,000 quick / 20,000,000 thorough) - '
+                    'layout, history brought to rest, continuation - on which the real mapper after the history and a new real mapper must answer every continuation step alike.'),
         design_ref='6.6', level_note=MAPPER_NOTE),
 })
 
